@@ -156,6 +156,7 @@ struct BodyV<'a> {
     nested_fns: u32,
     call_of: std::collections::HashMap<usize, (usize, usize)>,
     consts: Vec<String>,
+    and_thens: Vec<String>,
 }
 impl<'a, 'ast> Visit<'ast> for BodyV<'a> {
     fn visit_item_fn(&mut self, _i: &'ast syn::ItemFn) {
@@ -205,6 +206,15 @@ impl<'a, 'ast> Visit<'ast> for BodyV<'a> {
     }
     fn visit_expr_method_call(&mut self, e: &'ast syn::ExprMethodCall) {
         let cs = self.src.span(e.span());
+        if e.method == "and_then" && e.args.len() == 1 {
+            if let syn::Expr::Closure(c) = &e.args[0] {
+                if c.inputs.len() == 1 {
+                    self.and_thens.push(format!(
+                        "{{\"call\":{},\"recv\":{},\"param\":{},\"body\":{}}}",
+                        sp(cs), sp(self.src.span(e.receiver.span())), sp(self.src.span(c.inputs[0].span())), sp(self.src.span(c.body.span()))));
+                }
+            }
+        }
         for a in e.args.iter() {
             if let syn::Expr::Closure(c) = a {
                 self.call_of.insert(self.src.span(c.span()).0, cs);
@@ -380,6 +390,7 @@ impl<'a> Ctx<'a> {
             nested_fns: 0,
             call_of: Default::default(),
             consts: vec![],
+            and_thens: vec![],
         };
         let body = match block {
             Some(b) => {
@@ -396,7 +407,7 @@ impl<'a> Ctx<'a> {
         };
         let sig_span = self.src.span(sig.span());
         let rec = format!(
-            "{{\"rec\":\"fn\",\"mods\":{},\"qual\":{},\"name\":{},\"path\":{},\"cfg_test\":{},\"item\":{},\"vis\":{},\"sig\":{},\"ident\":{},\"out_ty\":{},\"where\":{},\"params\":[{}],\"body\":{},\"semi\":{},\"loops\":[{}],\"closures\":[{}],\"arms\":[{}],\"macros\":[{}],\"binders\":[{}],\"strlits\":[{}],\"consts\":[{}],\"nested_fns\":{}}}",
+            "{{\"rec\":\"fn\",\"mods\":{},\"qual\":{},\"name\":{},\"path\":{},\"cfg_test\":{},\"item\":{},\"vis\":{},\"sig\":{},\"ident\":{},\"out_ty\":{},\"where\":{},\"params\":[{}],\"body\":{},\"semi\":{},\"loops\":[{}],\"closures\":[{}],\"arms\":[{}],\"macros\":[{}],\"binders\":[{}],\"strlits\":[{}],\"consts\":[{}],\"and_thens\":[{}],\"nested_fns\":{}}}",
             js(&self.mods.join("::")),
             js(&self.qual.join("::")),
             js(&name),
@@ -418,6 +429,7 @@ impl<'a> Ctx<'a> {
             bv.binders.join(","),
             bv.strlits.join(","),
             bv.consts.join(","),
+            bv.and_thens.join(","),
             bv.nested_fns
         );
         self.out.push(rec);
